@@ -2123,6 +2123,13 @@ def eval_c02(res, cases_out, stream, width):
     stats = {"points": 0, "screens_with_wrap": 0, "wide_at_margin": 0, "final": 0}
     for (c, impl, model, raw) in cases_out:
         t = Trace(c, impl)
+        if "R panic" in raw["obs"] and "helper_panic_at" not in c.meta:
+            # (a read that panicked shows nothing right from there on: rustyline's own debug assertions about the layout end here)
+            why = [l for l in raw["obs"] if l.startswith("E panic")][:1]
+            res.oracle_failures.append({"stream": stream, "case": c.model_line(c.chunks if c.chunks is not None else p_tty.chunks_of(c.keys)),
+                                        "keys": c.keys, "events": jsonable(c.meta.get("events")),
+                                        "why": "the read panicked while drawing: %s" % (why[0] if why else "R panic")})
+            continue
         if not t.ok or c.reads != 1:
             continue
         out = raw["out"]
